@@ -144,6 +144,13 @@ def matches_known(v, entry):
         return bool(re.search(r'<clipPath[^>]*clip-rule=', doc))
     if sig.get('pattern') == 'use_clip_of_transformed_target':
         return bool(re.search(r'<use[^>]*clip-path=', doc))
+    if sig.get('pattern') == 'engine_result_wrong_at_point':
+        # the call site that fails is Skia itself: some recorded path operation of this very conversion answers wrongly AT the
+        # sample point (exact polygon membership of operands vs result); anything else is picosvg's own doing and is reported
+        import engine_blame
+        try: pt = unjson(v.get('expected_by_spec'))['point']
+        except Exception: return False
+        return bool(engine_blame.engine_failures_at(doc, pt, lambda d: SVG.fromstring(d).topicosvg()))
     return False
 
 def replay(ctx, w):
